@@ -406,20 +406,42 @@ def _cert_ratio(pr, w, b, tol):
         return None
 
 
+def objective_margin(pr, w, b, dist, tol, crit, exact, Pref):
+    """How far above the optimum may the objective of a point be whose stopping criterion is
+    within tol?  (convex problems; dist = l1 distance to the witness optimum)
+
+    subdifferential criterion (exact=True): P(w) - P* <= tol * dist  (convexity).
+    fixed-point criterion: with u = prox-gradient image of w, ||w - u||_inf <= tol, the
+    subgradient residual at u is at most (sum_j L_j + max L_j) * tol, and P(w) - P(u) <=
+    G * p * tol with G the (measured) subgradient norm at w: an absolute term in tol.
+    other criteria (FISTA, PDCD): a generous multiple plus a floor."""
+    scale = pr.rounding_scale(w, b)
+    rounding = 1e4 * EPS * scale * (1 + dist)
+    if exact:
+        return tol * dist * (1 + REL) + rounding
+    Lc = pr.unit_lipschitz(w, b, mode="local")
+    Lsum, Lmax = float(np.sum(Lc)), float(np.max(Lc, initial=0.0))
+    nunits = len(Lc)
+    if crit == "fixpoint":
+        try:
+            G = float(pr.certificate(w, b, criterion="subdiff")["value"])
+        except Exception:
+            G = float("inf")
+        if not np.isfinite(G):
+            G = 1e6 * (1 + pr.pen.slope_scale())
+        return tol * ((Lsum + Lmax + 1.0) * (dist + nunits * tol) + nunits * G) * (1 + REL) + rounding
+    kappa = 50.0 * (1.0 + Lmax * pr.p)
+    return kappa * tol * dist * (1 + REL) + 1e-7 * (1 + abs(Pref)) + rounding
+
+
 def judge_optimum(s, J, pr, res, w, b, tol, warm, op):
     out = []
     wz, bz, Pz = reference_witness(pr, hint=(w, b))
     P = pr.objective(w, b)
     dist = float(np.sum(np.abs(w - wz)) + np.sum(np.abs(np.asarray(b) - np.asarray(bz))))
     crit = criterion_of(s.solver_name, res["knobs"])
-    kappa = 1.0
-    floor = 0.0
-    if crit != "subdiff" or s.solver_name not in B.C01_SOLVERS:
-        Lc = pr.unit_lipschitz(w, b, mode="local")
-        kappa = 50.0 * (1.0 + float(np.max(Lc)) * pr.p)
-        floor = 1e-7 * (1 + abs(Pz))
-    scale = pr.rounding_scale(w, b)
-    margin = kappa * tol * dist * (1 + REL) + floor + 1e4 * EPS * scale * (1 + dist) \
+    exact = crit == "subdiff" and s.solver_name in B.C01_SOLVERS
+    margin = objective_margin(pr, w, b, dist, tol, crit, exact, Pz) \
         + J.drift_allow(pr, res, w, b) * (1 + dist)
     res["opt_gap"] = float(P - Pz)
     if P > Pz + margin:
